@@ -12,7 +12,45 @@ import tempfile
 import driver
 
 
+def _tree_key():
+    import hashlib
+    h = hashlib.sha256()
+    for base in (os.path.join(driver.REPO, "src"), os.path.join(driver.VERIF, "finder", "src")):
+        for root, _d, files in sorted(os.walk(base)):
+            for fn in sorted(files):
+                pth = os.path.join(root, fn)
+                h.update(os.path.relpath(pth, base).encode() + b"\0")
+                with open(pth, "rb") as f:
+                    h.update(f.read())
+    for extra in (os.path.join(driver.REPO, "Cargo.toml"), os.path.join(driver.VERIF, "finder", "Cargo.toml")):
+        with open(extra, "rb") as f:
+            h.update(f.read())
+    return h.hexdigest()[:20]
+
+
 def _build(scratch):
+    """the finder executable for the CURRENT tree (built in the scratch directory; the executable is kept in
+    build/cache keyed by the hash of /repo/src + finder/src, so the twenty checks of one tree build it once)"""
+    cdir = os.path.join(driver.BUILD, "cache")
+    os.makedirs(cdir, exist_ok=True)
+    cached = os.path.join(cdir, "finder-" + _tree_key())
+    if os.environ.get("VERIF_NO_CACHE") != "1" and os.path.exists(cached):
+        return cached
+    exe = _build_fresh(scratch)
+    if exe:
+        try:
+            tmp = cached + f".tmp{os.getpid()}"
+            shutil.copy2(exe, tmp)
+            os.replace(tmp, cached)
+            old = sorted((f for f in os.listdir(cdir) if f.startswith("finder-") and ".tmp" not in f), key=lambda f: os.path.getmtime(os.path.join(cdir, f)))
+            for f in old[:-24]:
+                os.remove(os.path.join(cdir, f))
+        except OSError:
+            pass
+    return exe
+
+
+def _build_fresh(scratch):
     shutil.copytree(os.path.join(driver.VERIF, "finder"), os.path.join(scratch, "finder"), ignore=shutil.ignore_patterns("target"))
     os.makedirs(os.path.join(scratch, "repo"))
     shutil.copytree(os.path.join(driver.REPO, "src"), os.path.join(scratch, "repo", "src"))
